@@ -117,6 +117,19 @@ def fam_ops(tier, seed):
             re = t if not nullable(t, env) else ("cat", t, C("z"))
             lets = [("v", V_DEF)] if uses_var(t) else []
             out.append(single("ops_%d_%s" % (sz, n), "ops", re, lets))
+    # nested repetition (named in C02's quantifier): every postfix operator around a concatenation /
+    # alternation whose head or tail is itself under a postfix operator
+    a, b, c = C("a"), C("b"), C("c")
+    for n1, u1 in UN:
+        for n2, u2 in UN:
+            shapes = [("hd", ("cat", u2(a), b)), ("tl", ("cat", a, u2(b))), ("alt", ("alt", u2(a), b)),
+                      ("both", ("cat", u2(a), u2(b))), ("str", ("cat", u2(S("ab")), c)),
+                      ("rng", ("cat", u2(SET(("a", "c"))), b))]
+            for sn, body in shapes:
+                t = ("cat", ("cat", C("<"), u1(body)), C(">"))
+                out.append(single("ops_nest_%s_%s_%s" % (n1, n2, sn), "ops", t))
+            out.append(single("ops_nest3_%s_%s" % (n1, n2), "ops",
+                              ("cat", ("cat", C("<"), u1(("cat", u2(("cat", star(a), b)), c))), C(">"))))
     # equal-language pairs are separate witnesses, each compared with the same reference
     pairs = [
         ("plus_vs_cat_star", plus(C("a")), cat(C("a"), star(C("a")))),
@@ -276,6 +289,24 @@ def fam_rctx(tier, seed):
         # context on the first rule, a context-free rule of lower priority for the same lexeme
         out.append(Witness("rctx_first_" + n, "rctx",
                            Def(top=[Rule(C("a"), ctx=c), Rule(C("a")), Rule(C("b")), Rule(C("c"))])))
+    overlap_ctxs = [
+        ("char_acc_range_more", alt(C("x"), cat(SET(("a", "z")), C("!")))),
+        ("char_more_range_acc", alt(cat(C("x"), C("?")), SET(("a", "z")))),
+        ("char_acc_any_more", alt(C("x"), cat(ANY, C("!")))),
+        ("char_more_any_acc", alt(cat(C("x"), C("?")), ANY)),
+        ("two_ranges_overlap", alt(cat(SET(("a", "m")), C("1")), SET(("h", "z")))),
+        ("char_acc_builtin_more", alt(C("_"), cat(B("XID_Continue"), C(":")))),
+        ("char_more_builtin_acc", alt(cat(C("q"), C(":")), B("alphabetic"))),
+        ("star_then_overlap", cat(star(C("y")), alt(C("x"), cat(SET(("a", "z")), C("!"))))),
+    ]
+    for n, c in overlap_ctxs:
+        out.append(Witness("rctx_overlap_" + n, "rctx",
+                           Def(top=[Rule(C("k"), ctx=c), Rule(C("k")), Rule(ANY)])))
+    small = trees(1) + trees(2) + trees(3)[::9]
+    for n, t in small:
+        lets = [("let", "v", V_DEF)] if uses_var(t) else []
+        out.append(Witness("rctx_tree_" + n, "rctx",
+                           Def(top=lets + [Rule(C("k"), ctx=t), Rule(C("k")), Rule(C("a")), Rule(C("b"))])))
     pos = [("lit2", S("bc")), ("eoi", EOI), ("rep", cat(star(C("b")), C("c"))), ("nullable", opt(C("b")))]
     for n, c in pos:
         out.append(Witness("rctx_last_" + n, "rctx",
@@ -606,6 +637,12 @@ def fam_modules(tier, seed):
                Def(name="A", top=[Rule(C("a"), ctx=S("bc")), Rule(C("b"))]).render() +
                Def(name="B", top=[Rule(C("a"), ctx=S("xy")), Rule(C("x"))]).render())
     out.append(Witness("modules_two_ctx_lexers", "modules", raw=two_ctx, tv=False))
+    out.append(Witness("modules_tables_main_and_ctx", "modules", Def(top=[
+        Rule(cat(B("alphabetic"), C("!")), ctx=cat(B("XID_Start"), C("?"))),
+        Rule(cat(B("uppercase"), C("?"))), Rule(C("!")), Rule(C("?"))])))
+    out.append(Witness("modules_tables_two_ctx", "modules", Def(top=[
+        Rule(C("a"), ctx=cat(B("XID_Start"), C("?"))), Rule(C("a"), ctx=cat(B("numeric"), C("!"))),
+        Rule(C("a")), Rule(C("?")), Rule(C("!"))])))
     out.append(Witness("modules_derive_clone", "modules",
                        Def(name="L", attrs=["#[derive(Clone, Debug)]", "/// doc"], vis="pub",
                            state_type="Vec<u32>", top=[Rule(plus(C("a"))), Rule(C("b"))]),
